@@ -91,6 +91,25 @@ end
 
 instance : Inhabited Val := ⟨.prim ""⟩
 
+mutual
+/-- structural equality of values, as a Boolean (the mutual inductive has no derived `DecidableEq`) -/
+def Val.beq : Val → Val → Bool
+  | .prim a, .prim b => a == b
+  | .struct n fs, .struct n' fs' => n == n' && fs.beq fs'
+  | .prim _, .struct _ _ => false
+  | .struct _ _, .prim _ => false
+def FVals.beq : FVals → FVals → Bool
+  | .nil, .nil => true
+  | .cons a r, .cons b r' => a.beq b && r.beq r'
+  | .nil, .cons _ _ => false
+  | .cons _ _, .nil => false
+def Vals.beq : Vals → Vals → Bool
+  | .nil, .nil => true
+  | .cons a r, .cons b r' => a.beq b && r.beq r'
+  | .nil, .cons _ _ => false
+  | .cons _ _, .nil => false
+end
+
 def Vals.ofList : List Val → Vals
   | [] => .nil
   | v :: vs => .cons v (Vals.ofList vs)
